@@ -12,6 +12,13 @@ MAXM = 2 ** 96 - 1
 NUM_RE = re.compile(r"^-?[0-9]+(\.[0-9]+)?$")
 
 
+def esc_re(s):
+    out = ""
+    for ch in s:
+        out += ("\\" + ch) if ch in r"\.+*?()|[]{}^$-" else ch
+    return out
+
+
 def jdec(m, s):
     return {"n": m < 0, "m": str(abs(m)), "s": s}
 
@@ -186,6 +193,8 @@ def amount_gen(r, smin, smax, overflow=False):
             nd = min(26, 32 - smin + r.randint(0, 2))
             s = r.randint(0, min(2, smin - 1))
             return (r.choice([1, -1]) * r.randint(10 ** (nd - 1), 10 ** nd - 1), s)
+        if overflow:
+            return (r.choice([1, -1]) * r.randint(1, 5000), r.randint(0, 2))
         return clamp(g())
 
     def g():
@@ -226,7 +235,11 @@ def rep_cases(run, n):
         g = J.Gen(r, max_depth=3, n_accounts=r.randint(2, 6), comms=r.sample(["", "EUR", "He·bar", "€"], r.randint(1, 2)))
         g.amount = amount_gen(r, smin, smax, overflow=over)
         ts = g.journal(r.randint(1, 2) if over else r.randint(1, 5), prices=False, meta=False, implicit_p=0.3)
-        out.append({"kind": "rep", "smin": smin, "smax": smax, "text": J.print_journal(ts), "tag": "overflow" if over else "gen"})
+        sel = []
+        if r.random() < 0.4:                # listed accounts only: the deltas are then not zero
+            sel = r.sample(g.accounts, min(len(g.accounts), r.randint(1, 3)))
+        out.append({"kind": "rep", "smin": smin, "smax": smax, "text": J.print_journal(ts), "sel": sel,
+                    "tag": "overflow" if over else "gen"})
     return out
 
 
@@ -241,7 +254,7 @@ def find_title(lines, title):
     raise ParseError("title %r not found" % title)
 
 
-def parse_balance_block(lines, pos, bal, figs, sums):
+def parse_balance_block(lines, pos, bal, figs, sums, selected=False):
     """rows `<own> <tree> [comm] account`, a ===== line, then `<delta> [comm]`; appends figures"""
     rows = bal["rows"]
     if not rows:
@@ -254,8 +267,9 @@ def parse_balance_block(lines, pos, bal, figs, sums):
             raise ParseError("balance row %r does not match %s / %s" % (lines[pos - 1], row["acc"], row["comm"]))
         figs.append((row["own"], tok[0], False, "own sum of %s %s" % (row["acc"], row["comm"])))
         figs.append((row["tree"], tok[1], True, "tree sum of %s %s" % (row["acc"], row["comm"])))
-        parts = [x["own"] for x in rows if x["comm"] == row["comm"] and (x["acc"] == row["acc"] or x["acc"].startswith(row["acc"] + ":"))]
-        sums.append((row["tree"], parts))
+        if not selected:        # every account is listed: the tree sum is the sum of the listed own sums below
+            parts = [x["own"] for x in rows if x["comm"] == row["comm"] and (x["acc"] == row["acc"] or x["acc"].startswith(row["acc"] + ":"))]
+            sums.append((row["tree"], parts))
     if not re.match(r"^=+$", lines[pos]):
         raise ParseError("ruler expected: %r" % lines[pos])
     pos += 1
@@ -269,25 +283,25 @@ def parse_balance_block(lines, pos, bal, figs, sums):
     return pos
 
 
-def parse_balance(text, bal, txns):
+def parse_balance(text, bal, txns, selected=False):
     lines = text.split("\n")
     figs, sums = [], []
     pos = find_title(lines, "BAL")
-    parse_balance_block(lines, pos, bal, figs, sums)
+    parse_balance_block(lines, pos, bal, figs, sums, selected)
     # own sums are the sums of the unrounded posting amounts
     for row in bal["rows"]:
         sums.append((row["own"], [p["amount"] for t in txns for p in t["posts"] if p["acc"] == row["acc"] and p["comm"] == row["comm"]]))
     return figs, sums
 
 
-def parse_balgrp(text, groups):
+def parse_balgrp(text, groups, selected=False):
     lines = text.split("\n")
     figs, sums = [], []
     pos = find_title(lines, "BALGRP")
     for g in groups:
         if lines[pos] != g["title"] or lines[pos + 1] != "-" * len(g["title"]):
             raise ParseError("group title %r expected, found %r" % (g["title"], lines[pos]))
-        pos = parse_balance_block(lines, pos + 2, g, figs, sums)
+        pos = parse_balance_block(lines, pos + 2, g, figs, sums, selected)
     return figs, sums
 
 
@@ -347,9 +361,11 @@ def exact_reg_figs(entries):
 def rep_requests(cases):
     reqs = []
     for c in cases:
-        toml = J.make_toml(smin=c["smin"], smax=c["smax"])
+        ras = [esc_re(a) for a in c.get("sel") or []]
+        acc = (", accounts = " + J.toml_list(ras)) if ras else ""
+        toml = J.make_toml(smin=c["smin"], smax=c["smax"], bal_acc=acc, balgrp_acc=acc)
         reqs.append({"conf": {"toml": toml}, "inputs": [{"text": c["text"]}],
-                     "ops": [{"op": "txns"}, {"op": "balance"}, {"op": "text_balance"}, {"op": "balgrp"}, {"op": "text_balgrp"},
+                     "ops": [{"op": "txns"}, {"op": "balance", "ras": ras}, {"op": "text_balance"}, {"op": "balgrp", "ras": ras}, {"op": "text_balgrp"},
                              {"op": "register"}, {"op": "text_register"}]})
     return reqs
 
@@ -376,8 +392,9 @@ def run_rep(run, cases, st):
             continue
         txns, bal, tbal, grp, tgrp, reg, treg = [x.get("ok") for x in rs]
         try:
-            parts = [("balance", tbal) + (parse_balance(tbal, bal, txns) if tbal is not None else (exact_figs([bal]), None)),
-                     ("balance-group", tgrp) + (parse_balgrp(tgrp, grp) if tgrp is not None else (exact_figs(grp), None)),
+            sel = bool(c.get("sel"))
+            parts = [("balance", tbal) + (parse_balance(tbal, bal, txns, sel) if tbal is not None else (exact_figs([bal]), None)),
+                     ("balance-group", tgrp) + (parse_balgrp(tgrp, grp, sel) if tgrp is not None else (exact_figs(grp), None)),
                      ("register", treg) + (parse_register(treg, reg) if treg is not None else (exact_reg_figs(reg), None))]
         except (ParseError, IndexError) as e:
             raise Infra("C17 report text parser does not understand the report (check the parser, not the code): %s" % e)
@@ -434,6 +451,8 @@ def judge_rep(run, o, val, st, distinct):
             st["negative_shown_as_zero"] += 1
     key = "%d,%d" % (c["smin"], c["smax"])
     st["scales"][key] = st["scales"].get(key, 0) + 1
+    if o["report"] != "register":
+        st["nonzero_deltas"] += sum(1 for f in o["figs"] if f[3].startswith("delta") and int(f[0]["m"]) != 0)
     if nrounded:
         distinct.add(("r", o["report"], key, tuple(f[1] for f in o["figs"])))
     if len([s for s in run.cov["samples"] if s.get("level") == "report"]) < 3 and nrounded:
@@ -446,7 +465,7 @@ def judge_rep(run, o, val, st, distinct):
         f = o["figs"][bad - 1]
         figure = {"what": f[3], "exact": J.dec_str(*dec_parts(f[0])), "stored_scale": f[0]["s"], "printed": f[1]}
     rep = {"case": c, "scale": {"min": c["smin"], "max": c["smax"]}, "report": o["report"], "journal": c["text"],
-           "first_bad_figure": figure, "implementation_output": o["text"],
+           "listed_accounts": c.get("sel") or "all", "first_bad_figure": figure, "implementation_output": o["text"],
            "replay_hint": "tackler --config <toml with report.scale = {min=%d,max=%d}> --input.file <journal> --reports %s" % (c["smin"], c["smax"], o["report"])}
     if not (bits & 2):
         run.violation("%s report shows a figure that is not the exact figure rounded half-away-from-zero to the configured scale "
@@ -474,7 +493,7 @@ def load_corpus():
 
 def check_cases(run, vcases, rcases):
     st = {"val_skipped": 0, "val_outside": 0, "val_tags": {}, "stages": {}, "rep_op_failed": 0, "neg_zero_skipped": 0,
-          "rep_outside": 0, "f18_value": 0, "f18_report": 0, "figures": 0, "figures_rounded": 0, "figures_midpoint": 0, "negative_shown_as_zero": 0, "scales": {}}
+          "rep_outside": 0, "f18_value": 0, "f18_report": 0, "nonzero_deltas": 0, "figures": 0, "figures_rounded": 0, "figures_midpoint": 0, "negative_shown_as_zero": 0, "scales": {}}
     vout, vterms = run_val(run, vcases, st)
     rout, rterms = run_rep(run, rcases, st)
     vals, errs = coq_eval("C17", IMPORTS, vterms + rterms)
@@ -507,13 +526,13 @@ def main(run):
                        "neighbours, trailing zeros, values rounding to zero, carry chains, powers of ten) x decimals 0..28 through "
                        "round_dp_with_strategy(MidpointAwayFromZero) + Display; report level: seeded journals (1-5 txns, 1-2 commodities, amounts built "
                        "relative to the configured scale: midpoints, half-midpoints that add up, more decimals than max, fewer than min, stored scale > needed, "
-                       "negatives rounding to zero) rendered as balance, balance-group and register text under scale (min,max) in "
+                       "negatives rounding to zero; 40% with listed accounts so that deltas are not zero) rendered as balance, balance-group and register text under scale (min,max) in "
                        "{(0,0),(2,2),(2,7),(0,28),(28,28),(0,3)} + random; every amount column parsed and compared with the model and the oracle; "
                        "non-trivial = the figure needs more decimals than shown; distinct = distinct printed outputs among those")
     run.notes.update({"value_cases_by_kind": st["val_tags"], "value_cases_skipped": st["val_skipped"], "value_cases_outside_domain": st["val_outside"],
                       "report_stages": st["stages"], "reports_by_scale": st["scales"], "report_figures": st["figures"],
                       "report_figures_rounded": st["figures_rounded"], "report_figures_exact_midpoint": st["figures_midpoint"],
-                      "negative_figures_shown_as_zero": st["negative_shown_as_zero"], "reports_skipped_negative_zero_figure": st["neg_zero_skipped"],
+                      "negative_figures_shown_as_zero": st["negative_shown_as_zero"], "nonzero_delta_figures": st["nonzero_deltas"], "reports_skipped_negative_zero_figure": st["neg_zero_skipped"],
                       "reports_outside_domain": st["rep_outside"], "report_ops_failed": st["rep_op_failed"],
                       "panics_in_class_F18": {"value_level": st["f18_value"], "reports": st["f18_report"]}})
     return run.finish(info)
@@ -535,6 +554,8 @@ def replay(run, path):
     check_cases(run, [c] if c["kind"] == "val" else [], [c] if c["kind"] == "rep" else [])
     for what, rep, found in run.violations:
         print("REPRODUCED: %s%s" % (what, "" if found else " (no failing input: correspondence only)"))
-    if not run.violations:
+    for k in run.known:
+        print("REPRODUCED (known finding): %s" % k)
+    if not run.violations and not run.known:
         print("not reproduced: the case passes now")
     return 1 if run.violations else 0
